@@ -65,6 +65,12 @@ def truth(v):
     if isinstance(v, (_SetV, _MapV)):
         k = z3.Const(_fresh("m"), v.dom.sort().domain())     # non-empty: some key is a member
         return z3.Exists([k], z3.Select(v.dom, k))
+    from .values import LitSet as _LitSet
+    if isinstance(v, _LitSet):
+        # a set with statically many candidate members, each present under its own condition: non-empty iff one is present
+        if v.conds is None:
+            return len(v.items) > 0
+        return b_or(*[c for c in v.conds]) if v.conds else False
     if isinstance(v, (ObjV, StrV)):
         return True
     if isinstance(v, str):
